@@ -849,7 +849,15 @@ func (r *run) rotate(op map[string]any, ln *Line) {
 	if os := s(op, "ostate"); os != world.None {
 		rotOpts = append(rotOpts, nodeenrollment.WithState(w.States[os]))
 	}
+	lf, _ := op["lf"].(bool)
+	op["lf"] = lf
+	if lf {
+		// a transient storage fault at the first lookup of the NEW key's record during the call (the check that the key
+		// is not registered yet, which is what refuses a replayed payload)
+		w.Rec.Fail, w.Rec.FailOp, w.Rec.FailType, w.Rec.FailId = world.FaultGeneric, "Load", "NodeInformation", w.EnsureCertKey(s(op, "k2")).KeyId
+	}
 	resp, err := rotation.RotateNodeCredentials(w.Ctx, w.Store, req, w.Opts(rotOpts...)...)
+	w.Rec.FailOp, w.Rec.FailId = "", ""
 	opens := []string{}
 	innerOpens := []string{}
 	echo := false
